@@ -377,6 +377,17 @@ class _Sim(object):
                 self.clock.advance(act["dt"])
             elif a == "examples_table":
                 self.do_table_mutation(ev, element, act)
+            elif a == "read_status":
+                seen = {}
+                for nm in ("feature", "rule", "scenario"):
+                    try:
+                        el = getattr(context, nm, None) if nm in context else None
+                    except Exception:
+                        el = None
+                    if el is not None:
+                        seen[nm] = el.status.name
+                ev["did"].append(["read_status", seen])
+                self.fire("status_read_mid_run")
             elif a == "step_table":
                 self.do_step_table_mutation(ev, context, act)
             else:
@@ -493,6 +504,13 @@ class _Sim(object):
             if defs:
                 d = rng.choice(defs)
                 lines.append("Given " + W.instantiate(rng, d))
+        if lines and rng.random() < 0.4:
+            # the last nested step carries its own doc-string / table (the caller may have none)
+            if rng.random() < 0.5:
+                lines += ['  """', "  nested text %d" % rng.randint(0, 9), '  """']
+            else:
+                lines += ["  | n0 | n1 |", "  | x%d | y |" % rng.randint(0, 9)]
+            self.fire("execute_steps_with_payload")
         if act.get("bad"):
             lines.append("Given zz-nested nothing matches")
         text = u"\n".join(lines) + u"\n"
@@ -1103,9 +1121,18 @@ def census(runner):
                 "captured": {"stdout": sc.captured.stdout, "stderr": sc.captured.stderr,
                              "log": sc.captured.log_output}}
 
+    def bg_rec(bg):
+        if bg is None:
+            return None
+        try:
+            return {"line": bg.line, "steps": [st.name for st in bg.steps]}
+        except Exception:
+            return None
+
     def item_rec(it, sid_fn):
         if isinstance(it, Rule):
             return {"kind": "rule", "id": sid_fn(it), "line": it.line, "name": it.name,
+                    "background": bg_rec(getattr(it, "background", None)),
                     "tags": [str(t) for t in it.tags], "status": it.status.name,
                     "hook_failed": bool(it.hook_failed),
                     "has_error_message": bool(it.error_message),
@@ -1132,6 +1159,7 @@ def census(runner):
                     "has_error_message": bool(feat.error_message),
                     "should_skip": bool(feat.should_skip),
                     "has_background": feat.background is not None,
+                    "background": bg_rec(feat.background),
                     "items": [item_rec(x, SIM.elem_id) for x in feat.run_items]})
     return out
 
